@@ -419,6 +419,10 @@ def check_limits(ctx, out):
         out.spec_fail(canon_of('capacitor', 'wrong_record', field='dc_open'), 'capacitor at w = 0 is not an open circuit', 'C at w=0', impl=repr(Cc))
 
 def replay(ctx, out, rp):
+    if ctx.driver is None and getattr(ctx.build, 'driver_baseline', None) is not None:
+        # the regenerated definitions do not build: replay against the last good driver, as the check itself does
+        try: ctx.driver = core.Driver(ctx.build.driver_baseline)
+        except core.DriverError: pass
     descs = rp.get('descs')
     if descs is None:
         raise SystemExit('replay file carries no component descriptions')
